@@ -2,6 +2,8 @@ package vc
 
 import (
 	"fmt"
+	"os"
+	"runtime/debug"
 	"go/ast"
 	"go/token"
 	"go/types"
@@ -50,6 +52,8 @@ type Engine struct {
 	globalsInit map[*types.Var]*ast.CompositeLit
 	curFx       *fctx
 	Debug       bool
+	typeInvs    map[string]*typeInvInfo
+	boxMode     int
 	heapIds     map[int]*Term // heap-id constant (by term id of the id constant) -> array term
 	heapIdOf    map[int]*Term // array term id -> heap-id constant
 }
@@ -147,6 +151,28 @@ type fctx struct {
 	inClause     bool
 	paramTerms   map[string]*Term
 	inGlobalInv  bool
+	inTypeInv    bool
+	rawAccess    bool
+	rawCond      *Term // with rawAccess: the access is raw only under this condition (nil = always)
+	loopPre      []*State
+	tailSwitch   ast.Stmt
+	protected    []protRegion
+	protCells    []protCell
+	localAddr    map[int]bool // addresses of boxed local variables (by term id)
+}
+
+// protCell: a field of one object that callees do not modify; see ghostProtectFields.
+type protCell struct {
+	addr *Term
+	key  string
+	t    types.Type
+}
+
+// protRegion: a slice whose elements no callee (and no host callback) modifies; see ghostProtect.
+type protRegion struct {
+	ptr, n *Term
+	elemT  types.Type
+	fields []string // nil = all fields
 }
 
 type callRef struct {
@@ -227,6 +253,10 @@ func (fx *fctx) check(st *State, kind, detail string, goal *Term, n ast.Node, de
 	if fx.spec {
 		// specifications are not checked for definedness and must not add facts
 		return
+	}
+	if goal.IsFalse() && os.Getenv("DSVC_DEBUG") != "" {
+		fmt.Fprintf(os.Stderr, "DEBUG constant-false check %s %s at %s\n", kind, detail, fx.e.posStr(n.Pos()))
+		debug.PrintStack()
 	}
 	fx.assert(st, kind, detail, goal, n, nil, desc)
 	st.assume(goal)
